@@ -542,6 +542,24 @@ void Exec::wait_for_rearmed_tasks(Inst *S, const std::set<int> &fds_before) {
     }
 }
 
+// Module names: "m0".."m3", or (programs with `names 1`) names steered with the guarded map hook so that slots 0/1 and slots 2/3 share a home
+// slot in a map of the default size - the context keeps its modules in such a map, and what it does must not depend on how names hash.
+extern "C" int m_map_verif_slot(const m_map_t *m, const char *key, size_t *home, ssize_t *slot, size_t *table_size);
+void Exec::choose_module_names() {
+    for (int k = 0; k < prog::MAX_MODS; k++) modname[k] = "m" + std::to_string(k);
+    if (!P.names) return;
+    m_map_t *probe_map = m_map_new((m_map_flags)0, nullptr);
+    if (!probe_map) return;
+    auto home_of = [&](const std::string &n) { size_t h = 0; m_map_verif_slot(probe_map, n.c_str(), &h, nullptr, nullptr); return h; };
+    for (int pair = 0; pair < 2; pair++) {
+        int a = pair * 2, b = pair * 2 + 1;
+        size_t want = home_of(modname[a]);
+        for (int k = 0; k < 5000; k++) { std::string cand = "m" + std::to_string(b) + "x" + std::to_string(k); if (home_of(cand) == want) { modname[b] = cand; break; } }
+    }
+    m_map_free(&probe_map);
+    cls.insert("colliding-module-names");
+}
+
 void Exec::live_fire(const Op &op) {
     int kind = (int)op.a; long ki = ((op.b % 3) + 3) % 3;
     Inst *owner = nullptr; for (auto &i : insts) if (i.live_srcs.count({kind, ki})) owner = &i;
@@ -624,6 +642,7 @@ rt::Verdict Exec::run() {
     signal(SIGPIPE, SIG_IGN); // the harness may write to a pipe whose read end an auto-close source already closed
     track::install();
     track::st().error.clear();
+    choose_module_names();
     for (int i = 0; i < 8; i++) { harness_fd[i][0] = harness_fd[i][1] = -1; harness_fd_open[i] = false; fd_bytes[i] = 0; autoclose_pending[i] = autoclose_closed[i] = false; harness_ino[i] = 0; }
     live_setup();
     fds_before = open_fds();
